@@ -261,6 +261,30 @@ fn step(t: &[&str]) -> String {
                 enc_str(r, buf)
             })
         }
+        // `<[u8; 2]>::from(ExceptionResponse)` called directly
+        "excinto" => {
+            let Some((PduSpec::Exc(fc, _, k), _)) = parse_pdu(&t[1..]) else { return bad() };
+            let e = ExceptionResponse { function: fc, exception: exc_of_idx(k).unwrap() };
+            match catch(|| <[u8; 2]>::from(e)) {
+                Some(b) => hex_of(&b),
+                None => "PANIC".into(),
+            }
+        }
+        // `pdu_len()` of a constructed value
+        "reqlen" => {
+            let Some((spec, _)) = parse_req(&t[1..]) else { return bad() };
+            with_req(&spec, |v| match v {
+                None => "SPECERR".into(),
+                Some(v) => catch(|| v.pdu_len()).map(|n| n.to_string()).unwrap_or("PANIC".into()),
+            })
+        }
+        "rsplen" => {
+            let Some((spec, _)) = parse_rsp(&t[1..]) else { return bad() };
+            with_rsp(&spec, |v| match v {
+                None => "SPECERR".into(),
+                Some(v) => catch(|| v.pdu_len()).map(|n| n.to_string()).unwrap_or("PANIC".into()),
+            })
+        }
         "pduenc" => {
             let Some((spec, rest)) = parse_pdu(&t[1..]) else { return bad() };
             with_pdu(&spec, |v| match v {
